@@ -136,9 +136,10 @@ def audit(prop_id):
 class Driver:
     """Persistent model driver process; `ask` sends a batch of request lines and returns responses."""
 
-    def __init__(self):
-        if not os.path.exists(AMODEL):
-            raise Infra("model driver not built")
+    def __init__(self, exe="amodel"):
+        self.exe = os.path.join(LEAN, ".lake", "build", "bin", exe)
+        if not os.path.exists(self.exe):
+            raise Infra(f"model driver {exe} not built")
         self.n = 0
 
     def ask(self, lines):
@@ -146,7 +147,7 @@ class Driver:
             return []
         data = "\n".join(lines) + "\n"
         assert data.count("\n") == len(lines), "request contains a newline"
-        p = subprocess.run([AMODEL], input=data, capture_output=True, text=True, timeout=3000)
+        p = subprocess.run([self.exe], input=data, capture_output=True, text=True, timeout=3000)
         out = p.stdout.splitlines()
         if p.returncode != 0 or len(out) != len(lines):
             raise Infra(f"driver returned {len(out)} lines for {len(lines)} requests (rc={p.returncode}): "
@@ -243,7 +244,8 @@ def load_known_findings():
 class Check:
     """One run of one property's check."""
 
-    def __init__(self, prop_id, tier, seed, level="proof"):
+    def __init__(self, prop_id, tier, seed, level="proof", exe="amodel"):
+        self.exe = exe
         self.id = prop_id
         self.tier = tier
         self.seed = seed
@@ -265,8 +267,8 @@ class Check:
     def lean(self, generated_changed=False):
         """build the property module and the driver; audit. Returns True if all obligations hold."""
         target = f"AmaranthVerif.Properties.{self.id}"
-        ok, log = lake_build([target, "amodel"], clean=(self.tier == "thorough" and os.environ.get("VERIF_CLEAN") == "1"))
-        self.extra["checker_cmd"] = f"cd lean && lake build {target} amodel && lake env lean Audit/{self.id}.lean"
+        ok, log = lake_build([target, self.exe], clean=(self.tier == "thorough" and os.environ.get("VERIF_CLEAN") == "1"))
+        self.extra["checker_cmd"] = f"cd lean && lake build {target} {self.exe} && lake env lean Audit/{self.id}.lean"
         if not ok:
             self.obligations.append((f"lake build {target}", False, log[-2000:]))
             self.build_log = log
@@ -288,7 +290,7 @@ class Check:
             self.obligations.append((f"leanchecker {target}", rc == 0, out[-500:]))
             if rc != 0:
                 raise Infra("leanchecker rejected " + target + ": " + out[-800:])
-        self.driver = Driver()
+        self.driver = Driver(self.exe)
         return True
 
     # -- bookkeeping -------------------------------------------------------------------------
